@@ -46,6 +46,26 @@ type Env struct {
 	PrevActor *world.Actor // nil => the library's own preview reader
 	NilCB     bool         // pass nil callbacks
 	MaxMeta   int          // ReadMetadata calls for the isobmff protocol entry (default 8)
+	// Prepos: the caller has already taken this many bytes from the stream (by reading, or with
+	// Seek when PreposSeek is set) before it hands the reader to a sniffing entry point.
+	Prepos     int
+	PreposSeek bool
+}
+
+// prepos moves the stream to where the caller of a sniffing entry point stands.
+func prepos(env *Env, r *world.SimReader, rd io.Reader) {
+	if env.Prepos <= 0 {
+		return
+	}
+	if env.PreposSeek {
+		if _, err := r.Seek(int64(env.Prepos), io.SeekStart); err != nil {
+			panic("verif: pre-positioning seek failed: " + err.Error())
+		}
+		return
+	}
+	if n, err := io.CopyN(io.Discard, rd, int64(env.Prepos)); err != nil || n != int64(env.Prepos) {
+		panic("verif: pre-positioning read failed")
+	}
 }
 
 // PanicInfo describes a recovered panic.
@@ -434,6 +454,7 @@ var Entries = []*Entry{
 	}},
 	{Name: "imagetype.Scan", Call: func(env *Env, r *world.SimReader, res *Result) {
 		rd := mkReader(env, r, res)
+		prepos(env, r, rd)
 		m0()
 		t, err := imagetype.Scan(rd)
 		m1()
@@ -449,6 +470,7 @@ var Entries = []*Entry{
 		e2 := *env
 		e2.RK = rk
 		rd := mkReader(&e2, r, res)
+		prepos(env, r, rd)
 		m0()
 		t, err := imagetype.ScanBuf(rd.(*bufio.Reader))
 		m1()
